@@ -23,7 +23,8 @@ pub struct Config {
     pub step_ns: i64,
     pub nkeys: usize,
     /// initial population: 0 = empty directory; 1 = every key present, a day old, distinct ages, all read since insertion
-    /// (so that the first maintenance re-queues several entries at once); 2 = the same, none read
+    /// (so that the first maintenance re-queues several entries at once); 2 = the same, none read; 3 = entries put there
+    /// by another tool (cp, rsync, tar): mtime a day old at .9 s of its second, atime 0.4 s earlier in the same second
     pub init: u8,
 }
 
@@ -36,7 +37,7 @@ impl Config {
             self.gran_ns / 1_000_000,
             self.step_ns / 1_000_000,
             self.nkeys,
-            ["", "/all-read", "/all-unread"][self.init as usize]
+            ["", "/all-read", "/all-unread", "/foreign"][self.init as usize]
         )
     }
     fn to_json(&self) -> Value {
@@ -151,9 +152,13 @@ fn open_live(cfg: &Config) -> Live {
     if cfg.init != 0 {
         let day = base as i128 - 86_400_000_000_000;
         for (i, k) in cfg.keys().iter().enumerate() {
-            let m = day - ((cfg.nkeys - i) as i128) * 60_000_000_000;
+            let m = day - ((cfg.nkeys - i) as i128) * 60_000_000_000 + if cfg.init == 3 { 900_000_000 } else { 0 };
             let val = Val::one(10 + i as u8);
-            let a = if cfg.init == 1 { m + 5_000_000_000 } else { m - 120_000_000_000 };
+            let a = match cfg.init {
+                1 => m + 5_000_000_000,
+                3 => m - 400_000_000,
+                _ => m - 120_000_000_000,
+            };
             world::plant(&home.join(&k.name), &val.bytes(), 0o444, a, m);
             model.push(MEntry { name: k.name.clone(), val, marked: cfg.init == 1 });
         }
@@ -529,6 +534,10 @@ pub fn configs(tier: Tier) -> Vec<(Config, usize)> {
         for (f, p, gi, init) in [(0u8, 0usize, 0usize, 1u8), (1, 2, 1, 1), (2, 1, 2, 1), (0, 1, 4, 1), (0, 2, 0, 2), (1, 0, 3, 2)] {
             v.push((Config { front: f, policy: p, gran_ns: g[gi].0, step_ns: g[gi].1, nkeys: 3, init }, 3));
         }
+        // entries created by other tools (sub-second distance between atime and mtime), nanosecond timestamps
+        for (f, p, gi) in [(0u8, 0usize, 0usize), (1, 1, 0), (2, 2, 1), (0, 2, 1), (2, 0, 0)] {
+            v.push((Config { front: f, policy: p, gran_ns: g[gi].0, step_ns: g[gi].1, nkeys: 2, init: 3 }, 3));
+        }
     } else {
         for f in 0..3u8 {
             for p in 0..3usize {
@@ -540,6 +549,9 @@ pub fn configs(tier: Tier) -> Vec<(Config, usize)> {
                     v.push((Config { front: f, policy: p, gran_ns: *gn, step_ns: *st, nkeys: 3, init: 1 }, 4));
                     if f == 0 {
                         v.push((Config { front: f, policy: p, gran_ns: *gn, step_ns: *st, nkeys: 3, init: 2 }, 4));
+                    }
+                    if *gn == 1 {
+                        v.push((Config { front: f, policy: p, gran_ns: *gn, step_ns: *st, nkeys: 2, init: 3 }, 5));
                     }
                 }
             }
@@ -678,7 +690,8 @@ pub fn run(tier: Tier, shard: Shard, rep: &mut Report) {
         every marking step the real prune is run on a clone of the directory with capacity n-1: the entry must survive when an unread \
         entry exists, and be re-queued when it was the oldest. Quick: a pairwise-covering dozen of the 54 configurations to depth 4 from \
         the empty directory, plus six configurations to depth 3 from a directory already holding three day-old entries (all read since \
-        insertion, so that one maintenance re-queues several entries, or none read); thorough: all of them to depth 8 or fixpoint, and \
+        insertion, so that one maintenance re-queues several entries, or none read) and five from a directory holding entries made by \
+        other tools (atime a fraction of a second behind mtime, inside the same second); thorough: all of them to depth 8 or fixpoint, and \
         all populated starts to depth 4. Plus: touch / put-on-existing / get racing with a set of the same key (all schedules with \
         <= 2 preemptions): the entry that ends up holding the set's value never carries the replaced entry's modification time. And: every call of a marking operation failing once in turn (3 front-ends x 3 atime policies): an operation \
         that still reports success has set the mark and left the mtime alone. \
